@@ -437,7 +437,9 @@ func (s *sim) callerList(list []string) []string {
 		return append([]string{}, list...)
 	}
 	if len(s.buf) == len(list) && len(list) > 0 {
-		copy(s.buf, list)
+		for i := range list { // not copy(): the runtime's slice copy reports to the race detector even from norace code
+			s.buf[i] = list[i]
+		}
 		s.res.Count("fault:caller_reuses_its_slice_in_place", 1)
 	} else {
 		s.buf = append([]string{}, list...)
